@@ -343,11 +343,12 @@ func genCstRange(rng *rand.Rand, st *Stats) cstRange {
 		st.Inc("range:malformed")
 		i := 1 + rng.Intn(len(cstKeys)-1)
 		return cstRange{Left: y.KeyWithTs(cstKeys[i], math.MaxUint64), Right: y.KeyWithTs(cstKeys[rng.Intn(i)], 0)}
-	case p == 3: // arbitrary versions at the ends
+	case p >= 3 && p <= 6: // boundary cases: few keys, few versions, so that one range's end IS another's start
 		st.Inc("range:versions")
-		i := rng.Intn(len(cstKeys))
-		j := i + rng.Intn(len(cstKeys)-i)
-		return cstRange{Left: y.KeyWithTs(cstKeys[i], uint64(10+rng.Intn(5))), Right: y.KeyWithTs(cstKeys[j], uint64(rng.Intn(10)))}
+		tss := []uint64{0, 1, 2, math.MaxUint64}
+		i := rng.Intn(3)
+		j := i + rng.Intn(2)
+		return cstRange{Left: y.KeyWithTs(cstKeys[i], tss[rng.Intn(4)]), Right: y.KeyWithTs(cstKeys[j], tss[rng.Intn(4)])}
 	}
 	st.Inc("range:proper")
 	i := rng.Intn(len(cstKeys))
